@@ -1,6 +1,7 @@
 package props
 
 import (
+	"fmt"
 	"go/ast"
 	"go/token"
 	"go/types"
@@ -85,10 +86,10 @@ func checkHostListenerSlices(c *core.Ctx) {
 				k := ""
 				ast.Inspect(ex, func(y ast.Node) bool {
 					if id, ok := y.(*ast.Ident); ok {
-						switch {
-						case strings.Contains(id.Name, "Param"):
+						switch nm := strings.ToLower(id.Name); {
+						case strings.Contains(nm, "param"):
 							k = "params"
-						case strings.Contains(id.Name, "Result"):
+						case strings.Contains(nm, "result"):
 							k = "results"
 						}
 					}
@@ -327,4 +328,191 @@ func insideDefer(fd *ast.FuncDecl, target ast.Node) bool {
 		return true
 	})
 	return in
+}
+
+// checkAfterReceivesTopOfStack (R20.11): where the frontend emits the call of the after-listener trampoline, the values it
+// passes are the TOP entries of the operand stack (the results of the function), not the bottom ones: a `return` or a branch
+// to the function label may leave extra operands below the results.
+func checkAfterReceivesTopOfStack(c *core.Ctx) {
+	p := c.Pkg("internal/engine/wazevo/frontend")
+	if p == nil {
+		return
+	}
+	info := p.TypesInfo
+	n := 0
+	core.AllFuncDecls(p, func(fd *ast.FuncDecl) {
+		// semantic anchor: the function that loads the after-listener trampoline table
+		loadsAfter := false
+		ast.Inspect(fd.Body, func(x ast.Node) bool {
+			if se, ok := x.(*ast.SelectorExpr); ok && strings.Contains(se.Sel.Name, "AfterListenerTrampolines") {
+				loadsAfter = true
+			}
+			return true
+		})
+		if !loadsAfter {
+			return
+		}
+		ast.Inspect(fd.Body, func(x ast.Node) bool {
+			sl, ok := x.(*ast.SliceExpr)
+			if !ok {
+				return true
+			}
+			// a slice of the operand-stack values
+			t := info.Types[sl.X].Type
+			if t == nil || !strings.Contains(t.String(), "ssa.Value") {
+				return true
+			}
+			if !strings.Contains(core.ExprStr(sl.X), "values") {
+				return true
+			}
+			n++
+			// top-of-stack forms: values[tail-n:tail], values[len(values)-n:], values[tail-n:]
+			topForm := sl.Low != nil
+			if sl.Low != nil {
+				if be, ok := ast.Unparen(sl.Low).(*ast.BinaryExpr); !ok || be.Op != token.SUB {
+					// a local bound to such a difference is accepted too
+					if id, isId := ast.Unparen(sl.Low).(*ast.Ident); isId {
+						bound := false
+						ast.Inspect(fd.Body, func(y ast.Node) bool {
+							if as, ok := y.(*ast.AssignStmt); ok && len(as.Lhs) == 1 && len(as.Rhs) == 1 {
+								if lid, ok := as.Lhs[0].(*ast.Ident); ok && info.Defs[lid] != nil && info.Defs[lid] == info.Uses[id] {
+									if be, ok := ast.Unparen(as.Rhs[0]).(*ast.BinaryExpr); ok && be.Op == token.SUB {
+										bound = true
+									}
+								}
+							}
+							return true
+						})
+						topForm = bound
+					} else {
+						topForm = false
+					}
+				}
+			}
+			c.Check(topForm, "R20.11", "frontend "+fd.Name.Name+": the after-listener receives the top of the operand stack", sl.Pos(),
+				"`"+core.ExprStr(sl)+"` counts from the top of the stack",
+				"`"+core.ExprStr(sl)+"` takes the values from the bottom of the operand stack: when the function returns with extra operands below its results (return / br to the function label), After carries values which are not the results")
+			return true
+		})
+	})
+	if n == 0 {
+		c.Undecided("R20.11", "values passed to the after-listener trampoline", 0, "not found")
+	}
+}
+
+// checkAbortCollectionUnconditional (R20.12): in the recover paths, whether a frame's listener is collected for Abort depends
+// on that listener alone. A frame's listener belongs to the module that defines the function; a condition on the entry
+// module (or anything else) drops Aborts of other modules' frames.
+func checkAbortCollectionUnconditional(c *core.Ctx) {
+	n := 0
+	for _, e := range []struct{ name, rel string }{{"compiler", wzv}, {"interpreter", "internal/engine/interpreter"}} {
+		p := c.Pkg(e.rel)
+		if p == nil {
+			continue
+		}
+		info := p.TypesInfo
+		core.AllFuncDecls(p, func(fd *ast.FuncDecl) {
+			hasAbort, hasRecover := false, false
+			ast.Inspect(fd.Body, func(x ast.Node) bool {
+				if call, ok := x.(*ast.CallExpr); ok {
+					if se, ok := call.Fun.(*ast.SelectorExpr); ok && se.Sel.Name == "Abort" {
+						hasAbort = true
+					}
+					if core.IsBuiltin(info, call, "recover") {
+						hasRecover = true
+					}
+					if se, ok := call.Fun.(*ast.SelectorExpr); ok && se.Sel.Name == "FromRecovered" {
+						hasRecover = true
+					}
+				}
+				return true
+			})
+			if !hasAbort || !hasRecover {
+				return
+			}
+			// appends that collect listeners: append(x, …) where the appended element mentions a FunctionListener value
+			var walk func(n ast.Node, conds []ast.Expr)
+			walk = func(nd ast.Node, conds []ast.Expr) {
+				switch y := nd.(type) {
+				case nil:
+					return
+				case *ast.IfStmt:
+					walk(y.Body, append(append([]ast.Expr{}, conds...), y.Cond))
+					if y.Else != nil {
+						walk(y.Else, conds)
+					}
+					return
+				case *ast.CallExpr:
+					if core.IsBuiltin(info, y, "append") && len(y.Args) >= 2 {
+						isListener := false
+						var lsnIdent types.Object
+						ast.Inspect(y.Args[1], func(z ast.Node) bool {
+							if id, ok := z.(*ast.Ident); ok {
+								if o := info.Uses[id]; o != nil && o.Type() != nil && strings.Contains(o.Type().String(), "FunctionListener") {
+									isListener = true
+									lsnIdent = o
+								}
+							}
+							if se, ok := z.(*ast.SelectorExpr); ok {
+								if t := info.Types[se].Type; t != nil && strings.Contains(t.String(), "FunctionListener") {
+									isListener = true
+								}
+							}
+							return true
+						})
+						if isListener {
+							n++
+							extra := ""
+							for _, cond := range conds {
+								ast.Inspect(cond, func(z ast.Node) bool {
+									id, ok := z.(*ast.Ident)
+									if !ok || id.Name == "nil" {
+										return true
+									}
+									o := info.Uses[id]
+									if o == nil {
+										return true
+									}
+									if _, isVar := o.(*types.Var); !isVar {
+										return true
+									}
+									// allowed: the listener itself, or a value it was selected from (f, frame, parent …) – anything whose
+									// type mentions the listener or the function it belongs to
+									ts := o.Type().String()
+									if _, isIface := o.Type().Underlying().(*types.Interface); isIface && !strings.Contains(ts, "FunctionListener") {
+										return true // the recovered value / an error: which kind of failure, not which frame
+									}
+									if o == lsnIdent || strings.Contains(ts, "FunctionListener") || strings.Contains(ts, "function") || strings.Contains(ts, "compiledFunction") || strings.Contains(ts, "callFrame") {
+										return true
+									}
+									extra = id.Name
+									return true
+								})
+							}
+							c.Check(extra == "", "R20.12", e.name+" "+fd.Name.Name+": collecting a frame's listener for Abort depends on that listener only (#"+fmt.Sprint(n)+")", y.Pos(),
+								"the guard mentions only the listener (or the frame it comes from)",
+								"the collection is also conditioned on `"+extra+"`: a frame's listener belongs to the module defining the function, so a condition on anything else (e.g. whether the entry module has listeners) leaves Before events of other modules' frames without After or Abort when the call unwinds")
+						}
+					}
+				}
+				var kids []ast.Node
+				ast.Inspect(nd, func(x ast.Node) bool {
+					if x == nd {
+						return true
+					}
+					if x != nil {
+						kids = append(kids, x)
+					}
+					return false
+				})
+				for _, k := range kids {
+					walk(k, conds)
+				}
+			}
+			walk(fd.Body, nil)
+		})
+	}
+	if n == 0 {
+		c.Undecided("R20.12", "listener collection in the recover paths", 0, "none found")
+	}
 }
